@@ -36,14 +36,18 @@ pub fn park() {
 
 pub fn yield_now() {
     event(Ev::Yield);
-    loom::thread::yield_now()
+    if crate::ctl::should_yield() {
+        loom::thread::yield_now()
+    }
 }
 
 /// Sleeping is yielding: loom has no time; the virtual clock is advanced only
 /// by `Instant::now()`.
 pub fn sleep(_d: Duration) {
     event(Ev::Yield);
-    loom::thread::yield_now()
+    if crate::ctl::should_yield() {
+        loom::thread::yield_now()
+    }
 }
 
 pub fn available_parallelism() -> std::io::Result<NonZeroUsize> {
